@@ -70,6 +70,9 @@ static std::vector<double> gen_axis(Rng& rng, int kind, bool& special)
 			break;
 	}
 	double len = rng.coin(0.4) ? 1.0 : rng.loguni(1e-6, 1e6);
+	// lengths that are almost, but not exactly, 1 (seeded change C16-r7m2 skipped the normalisation for axes that "are unit vectors already")
+	if(rng.coin(0.08))
+		len = 1.0 + rng.sign() * rng.loguni(1e-15, 1e-5);
 	ld n	   = norm(d);
 	std::vector<double> a = {(double) (d.x / n * len), (double) (d.y / n * len), (double) (d.z / n * len)};
 	if(kind % 8 == 0 && len == 1.0)
@@ -166,6 +169,9 @@ static void case_spherical_axis(Rng& rng, uint64_t index)
 	bool special;
 	std::vector<double> ax = gen_axis(rng, (int) (index % 8), special);
 	double r = rng.loguni(1e-6, 1e6);
+	// "all r > 0": up to the ends of the format (seeded change C16-r7m3 rescaled the result to length r through r^2)
+	if(rng.coin(0.12))
+		r = rng.loguni(1e-300, 1e300);
 	double theta, phi;
 	switch(rng.irange(0, 5))
 	{
@@ -325,11 +331,37 @@ static void case_history(Rng& rng, uint64_t index)
 		hash_param(a);
 	hash_param(axes[0][0]), hash_param(axes[0][2]), hash_param((double) script[0]), hash_param((double) script.back());
 	mark_nontrivial();
+	// the axes live in Vector objects that the caller keeps and changes in place between the calls (+=, -=, writes through operator[]): what is handed to
+	// the library is the object as it is now (seeded change C16-r7m1 remembered the norm inside the Vector and missed the compound assignments)
+	std::vector<Vector> axobj;
+	for(auto& a : axes)
+		axobj.push_back(Vector(a));
 	for(int st = 0; st < steps; st++)
 	{
 		int kind = script[st] / 100;
 		double alpha = angles[(script[st] / 10) % 10];
+		if(st > 0 && rng.coin(0.3))
+		{
+			int k = script[st] % 10;
+			std::vector<double> d = {rng.normal(), rng.normal(), rng.normal()}, was = axes[k];
+			double sc = rng.coin() ? rng.loguni(1e-3, 1e3) : 1.0;
+			for(auto& c : d)
+				c *= sc;
+			int how = rng.irange(0, 2);
+			(void) axobj[k].Norm();
+			for(int i = 0; i < 3; i++)
+				axes[k][i] = how == 0 ? was[i] + d[i] : how == 1 ? was[i] - d[i] : (i == 1 ? d[i] : was[i]);
+			if(how == 0)
+				axobj[k] += Vector(d);
+			else if(how == 1)
+				axobj[k] -= Vector(d);
+			else
+				axobj[k][1] = d[1];
+			if(axes[k][0] == 0 && axes[k][1] == 0 && axes[k][2] == 0)
+				axes[k] = was, axobj[k] = Vector(was);
+		}
 		const std::vector<double>& ax = axes[script[st] % 10];
+		const Vector& axv			   = axobj[script[st] % 10];
 		auto sj = [&] { return J().i("step", st).i("kind", kind).d("alpha", alpha).vec("axis", ax); };
 		if(kind == 0)
 		{
@@ -341,7 +373,7 @@ static void case_history(Rng& rng, uint64_t index)
 		else if(kind == 1 || kind == 2)
 		{
 			bool dflt = kind == 2;
-			Matrix Rm = dflt ? Rotation_Matrix(alpha, 3) : Rotation_Matrix(alpha, 3, Vector(ax));
+			Matrix Rm = dflt ? Rotation_Matrix(alpha, 3) : Rotation_Matrix(alpha, 3, axv);
 			if(!require("history-rotation-matrix-is-3x3", Rm.Rows() == 3 && Rm.Columns() == 3, sj))
 				continue;
 			V3 n = dflt ? V3 {0, 0, 1} : unit({(ld) ax[0], (ld) ax[1], (ld) ax[2]});
@@ -358,8 +390,10 @@ static void case_history(Rng& rng, uint64_t index)
 		else
 		{
 			double r = rng.loguni(1e-3, 1e3), theta = rng.uni(0.01, M_PI - 0.01), phi = rng.uni(0, 2 * M_PI);
+			if(rng.coin(0.15))
+				r = rng.loguni(1e-300, 1e300);	 // "all r > 0"
 			bool plain = kind == 4;
-			Vector v   = plain ? Spherical_Coordinates(r, theta, phi) : Spherical_Coordinates(r, theta, phi, Vector(ax));
+			Vector v   = plain ? Spherical_Coordinates(r, theta, phi) : Spherical_Coordinates(r, theta, phi, axv);
 			if(!require("history-spherical-returns-3-vector", v.Size() == 3, sj))
 				continue;
 			V3 w = {(ld) v[0], (ld) v[1], (ld) v[2]};
